@@ -54,3 +54,22 @@ Fixpoint token_case (s : str) (d : nat) : option bool :=
   end.
 (* a "von" token is a lowercase token *)
 Definition spec_is_von (tok : str) : bool := match token_case tok 0 with Some b => b | None => false end.
+
+(* no backslash at brace level 1 (inside a group that is not a special character) before the
+   character that decides the case -- the hypothesis of token_case_rule_partial (finding FC04a) *)
+Fixpoint no_stray_backslash (s : str) (d : nat) : bool :=
+  match s with
+  | [] => true
+  | c :: t =>
+    if N.eqb c c_lbrace then
+      match d, t with
+      | O, b :: _ => if N.eqb b c_bslash then true else no_stray_backslash t (S d)
+      | _, _ => no_stray_backslash t (S d)
+      end
+    else if N.eqb c c_rbrace then no_stray_backslash t (pred d)
+    else match d with
+         | O => if is_alpha c then true else no_stray_backslash t d
+         | 1 => if N.eqb c c_bslash then false else no_stray_backslash t d
+         | _ => no_stray_backslash t d
+         end
+  end.
